@@ -17,8 +17,8 @@ import (
 // canonical key: model (tags renamed by first occurrence, names by creation rank) + in-memory map + per-file extent
 // layout and content + directory listing.  The future behaviour of a replica is a function of its files (content,
 // extent layout, metadata) and these in-memory fields; two paths with equal keys differ only in snapshot names and
-// write tags, which the code never inspects.  The revision counter value is left out on purpose (it is only ever
-// copied and incremented; the counter oracle checks it against the model on every path).
+// write tags, which the code never inspects.  The revision counter value is part of the key only in runs whose
+// subject is the counter (oracle "rev"); elsewhere it is left out (it is only ever copied and incremented).
 
 type renamer struct {
 	tags  map[uint8]int
@@ -135,6 +135,11 @@ func (x *inst) key() string {
 
 	var b strings.Builder
 	fmt.Fprintf(&b, "M live=%s open=%v mode=%s reb=%v dirty=%v cp=%s punch=%v del=%v\n", r.img(m.Live), m.Open, m.Mode, m.Rebuilding, m.Dirty, r.name(diskIf(m.Checkpoint)), types.ShouldPunchHoles, m.Deleted)
+	if x.wants("rev") {
+		// the counter's value is part of the state where the counter is the subject (its stored representation has a
+		// length; seed C10-c): merged only when equal
+		fmt.Fprintf(&b, "V rev=%d\n", m.Rev)
+	}
 	for _, s := range m.Chain {
 		fmt.Fprintf(&b, "C %s u=%v r=%v img=%s\n", r.name(disk(s.Name)), s.User, s.Removed, r.img(s.Img))
 	}
